@@ -15,9 +15,13 @@ func genMove(t *rapid.T, nIn, nPorts int, cancel, tick bool) Move {
 	}
 	if tick {
 		kinds = append(kinds, "tick", "tick", "tick")
+	} else {
+		kinds = append(kinds, "wait") // a long stretch of (virtual) time passes with the stage in whatever state it is
 	}
 	m := Move{K: rapid.SampledFrom(kinds).Draw(t, "k")}
 	switch m.K {
+	case "wait":
+		m.M = rapid.SampledFrom([]int{2, 2, 90, 4000}).Draw(t, "seconds")
 	case "send", "close":
 		m.I = rapid.IntRange(0, max(nIn-1, 0)).Draw(t, "i")
 	case "burst":
@@ -330,6 +334,7 @@ func genC06(t *rapid.T) *Scenario {
 		}
 		sc.Script = append(sc.Script, Move{K: "batch", Sub: all}, Move{K: "cancel"})
 	}
+	sc.Deadline = rapid.IntRange(0, 3).Draw(t, "deadline") == 0 // the context ends by deadline instead of an explicit cancel
 	return sc
 }
 
@@ -342,9 +347,12 @@ func genC08(t *rapid.T) *Scenario {
 	}
 	sc.Mode = rapid.SampledFrom([]string{"cancel", "cancel", "close", "close-cancel"}).Draw(t, "end")
 	n := rapid.IntRange(0, 40).Draw(t, "scriptLen")
-	kinds := []string{"send", "send", "send", "send", "burst", "burst", "burst", "recv", "recv", "recv", "recv", "drain", "drain", "batch", "batch"}
+	kinds := []string{"send", "send", "send", "send", "burst", "burst", "burst", "recv", "recv", "recv", "recv", "drain", "drain", "batch", "batch", "wait"}
 	for j := 0; j < n; j++ {
 		m := Move{K: rapid.SampledFrom(kinds).Draw(t, "k")}
+		if m.K == "wait" {
+			m.M = rapid.SampledFrom([]int{2, 2, 90, 4000}).Draw(t, "seconds")
+		}
 		if m.K == "burst" {
 			m.M = rapid.IntRange(1, 8).Draw(t, "m")
 			if rapid.IntRange(0, 19).Draw(t, "big") == 0 {
@@ -368,6 +376,8 @@ func genC08(t *rapid.T) *Scenario {
 		sc.Script = append(sc.Script, m)
 	}
 	sc.PreCancel = rapid.IntRange(0, 19).Draw(t, "precancel") == 0
+	// sends are also attempted after the cancel (always when the pipe is created on a cancelled context)
+	sc.CancelAtEnd = sc.PreCancel || rapid.IntRange(0, 5).Draw(t, "sendAfterCancel") == 0
 	sc.Gated = rapid.IntRange(0, 3).Draw(t, "warm") == 0 // a pipe of another element type ran before (shared state between instantiations)
 	sc.Twin = rapid.IntRange(0, 4).Draw(t, "twin") == 0  // a second pipe of the same element type is alive alongside
 	// how the stream ends: by class
@@ -392,6 +402,7 @@ func genC08(t *rapid.T) *Scenario {
 	case "close-with-backlog":
 		sc.Script = append(sc.Script, Move{K: "burst", M: rapid.IntRange(1, 6).Draw(t, "backlog")}, Move{K: "close"})
 	}
+	sc.Deadline = rapid.IntRange(0, 3).Draw(t, "deadline") == 0 // the context ends by deadline instead of an explicit cancel
 	return sc
 }
 
@@ -440,8 +451,22 @@ func genC11(t *rapid.T) *Scenario {
 		sc.T.CancelAt = rapid.IntRange(1, 30).Draw(t, "cancelAt")
 		sc.T.StopAtCancel = rapid.Bool().Draw(t, "stopAtCancel")
 	}
+	if sc.Stage == "emit" && sc.Mode == "try" && rapid.IntRange(0, 3).Draw(t, "failingRun") == 0 {
+		// the function fails from some index on, the errors are read, and the cancel arrives inside that run:
+		// the only place where Emit can notice the cancel is its error path
+		k := rapid.IntRange(0, 6).Draw(t, "failFrom")
+		sc.Fail = nil
+		for i := k; i < k+400; i++ {
+			sc.Fail = append(sc.Fail, i)
+		}
+		sc.N = max(min(sc.N, k), 1)
+		sc.T.Consume, sc.T.Slow = nil, nil
+		sc.T.CancelAt = (k + 2 + rapid.IntRange(0, 5).Draw(t, "into")) * sc.Freq
+		sc.T.StopAtCancel = false
+	}
 	sc.PreCancel = rapid.IntRange(0, 15).Draw(t, "precancel") == 0
-	sc.Twin = rapid.IntRange(0, 5).Draw(t, "twin") == 0 // an independent second instance on the same virtual clock
+	sc.Twin = rapid.IntRange(0, 5).Draw(t, "twin") == 0         // an independent second instance on the same virtual clock
+	sc.Deadline = rapid.IntRange(0, 3).Draw(t, "deadline") == 0 // the context ends by deadline instead of an explicit cancel
 	return sc
 }
 
@@ -483,7 +508,8 @@ func genC13(t *rapid.T) *Scenario {
 		sc.T.CancelAt = rapid.IntRange(1, 40).Draw(t, "cancelAt")
 	}
 	sc.PreCancel = rapid.IntRange(0, 19).Draw(t, "precancel") == 0
-	sc.Twin = rapid.IntRange(0, 5).Draw(t, "twin") == 0 // an independent second instance on the same virtual clock
+	sc.Twin = rapid.IntRange(0, 5).Draw(t, "twin") == 0         // an independent second instance on the same virtual clock
+	sc.Deadline = rapid.IntRange(0, 3).Draw(t, "deadline") == 0 // the context ends by deadline instead of an explicit cancel
 	return sc
 }
 
@@ -493,7 +519,7 @@ var c09Stages = []string{"fork.map", "fork.map", "fork.fmap", "fork.filter", "fo
 
 func genForkScript(t *rapid.T, np int, cancel bool, maxLen int) []Move {
 	n := rapid.IntRange(0, maxLen).Draw(t, "scriptLen")
-	kinds := []string{"send", "send", "send", "burst", "burst", "recv", "recv", "recv", "drain", "release", "release", "release", "release", "releaseAll", "close", "batch"}
+	kinds := []string{"send", "send", "send", "burst", "burst", "recv", "recv", "recv", "drain", "release", "release", "release", "release", "releaseAll", "close", "batch", "wait"}
 	if cancel {
 		kinds = append(kinds, "cancel")
 	}
@@ -503,6 +529,8 @@ func genForkScript(t *rapid.T, np int, cancel bool, maxLen int) []Move {
 		switch m.K {
 		case "burst":
 			m.M = rapid.IntRange(1, 8).Draw(t, "m")
+		case "wait":
+			m.M = rapid.SampledFrom([]int{2, 2, 90, 4000}).Draw(t, "seconds")
 		case "recv", "drain":
 			m.I = rapid.IntRange(0, max(np-1, 0)).Draw(t, "port")
 		case "release":
@@ -604,6 +632,7 @@ func genC09(t *rapid.T) *Scenario {
 	if len(sc.Script) > 1 && sc.Script[0].K == "burst" && sc.Script[0].M == 16 && sc.Script[len(sc.Script)-1].K != "release" {
 		sc.NoFinish = sc.NoFinish || rapid.Bool().Draw(t, "nobodyReceives") // simultaneous-release class
 	}
+	sc.Deadline = rapid.IntRange(0, 3).Draw(t, "deadline") == 0 // the context ends by deadline instead of an explicit cancel
 	return sc
 }
 
@@ -660,5 +689,6 @@ func genC10(t *rapid.T) *Scenario {
 	}
 	sc.PreCancel = rapid.IntRange(0, 15).Draw(t, "precancel") == 0
 	sc.Twin = !long && rapid.IntRange(0, 5).Draw(t, "twin") == 0
+	sc.Deadline = rapid.IntRange(0, 3).Draw(t, "deadline") == 0 // the context ends by deadline instead of an explicit cancel
 	return sc
 }
